@@ -10,6 +10,15 @@ from . import sched
 
 _W = None
 PROP = "C19"
+
+
+class AloneFailure(Exception):
+    """A single call, in a thread of its own, after the run's set-up phase, does not return."""
+
+    def __init__(self, outcome, K, call, gran, pre):
+        Exception.__init__(self, outcome)
+        self.outcome, self.K, self.call, self.gran, self.pre = outcome, K, call, gran, pre
+
 BATCH = 16
 
 
@@ -24,14 +33,16 @@ class Worker:
         self.oracle = procs.OracleClient(env.HARNESS_HASHSEED)
         self.alone = {}                      # (K, call) -> (result, steps)
 
-    def alone_run(self, K, call, gran="instr"):
-        key = (K, call, gran)
+    def alone_run(self, K, call, gran="instr", pre=()):
+        key = (K, call, gran, pre)
         if key not in self.alone:
-            res, steps, herr = procs.fork_call(sched.run_alone, self.sf, K, call, gran, timeout=400.0)
+            res, steps, herr = procs.fork_call(sched.run_alone, self.sf, K, call, gran, pre, timeout=400.0)
+            if herr and herr.startswith("outcome:"):
+                raise AloneFailure(herr[8:], K, call, gran, pre)
             if herr:
                 raise procs.HarnessError("alone run: " + herr)
             want = self.oracle.query(K, call)
-            if tuple(res) != tuple(want[:2]):
+            if not pre and tuple(res) != tuple(want[:2]):
                 raise procs.HarnessError(
                     "instrumented alone-run differs from uninstrumented oracle: %r vs %r for %r" % (res, want[:2], call))
             if steps < 1:
@@ -262,7 +273,14 @@ def gen_spec(base_seed, i, W):
     # that lets such inputs succeed makes them quadratic, which bytecode events cannot afford
     gran = "native-line" if any(c[1].count("(") > 250 or c[1].count("[Branch1][P]") > 250
                                 for calls in threads for c in calls) else None
-    alone = [[W.alone_run(K, c, gran or "instr") for c in calls] for calls in threads]
+    pre = ()
+    if i % 4 == 3:
+        while True:     # a rejected update before the threads start (only unambiguously invalid ones)
+            bk, blit = gen.gen_bad_set(rng, gen.DEFAULT)
+            if bk in ("no_q", "bad_key", "bad_value", "bad_preset", "bad_arg"):
+                break
+        pre = (blit,)
+    alone = [[W.alone_run(K, c, gran or "instr", pre) for c in calls] for calls in threads]
     total = sum(s for calls in alone for _, s in calls)
     kind = ("random", "window", "stall", "pct", "shared", "window", "stall", "shared")[i % 8]     # stratified
     policy = {"kind": kind, "gran": rng.choice(("instr", "instr", "line"))}
@@ -295,7 +313,7 @@ def gen_spec(base_seed, i, W):
     probes = probes[:6] + [("decode", dec[-2], False, False), ("decode", dec[-1], False, True)]
     spec = {"table": K, "threads": threads, "policy": policy, "seed": "%d:schedsim:sched:%d" % (base_seed, i),
             "budget": 50 * total + 20000, "probes": probes, "theme": theme, "info": info,
-            "wall": 400.0 if gran else 100.0}
+            "wall": 400.0 if gran else 100.0, "pre": list(pre)}
     return spec, alone
 
 
@@ -315,7 +333,8 @@ def judge(W, spec, rec):
     K = spec["table"]
     for t, calls in enumerate(spec["threads"]):
         for j, c in enumerate(calls):
-            want, _ = W.alone_run(K, tuple(c), "native-line" if spec["policy"].get("gran") == "native-line" else "instr")
+            want, _ = W.alone_run(K, tuple(c), "native-line" if spec["policy"].get("gran") == "native-line" else "instr",
+                                  tuple(spec.get("pre", ())))
             got = rec["results"][t][j]
             if got is None or tuple(got) != tuple(want):
                 return {"class": "result_ne_alone", "detail": {"thread": t, "call": j, "input": list(c),
@@ -333,7 +352,20 @@ def judge(W, spec, rec):
 def run_one(base_seed, i, want_sample=False):
     W = worker()
     q0, h0 = W.oracle.queries, W.oracle.hits
-    spec, alone = gen_spec(base_seed, i, W)
+    try:
+        spec, alone = gen_spec(base_seed, i, W)
+    except AloneFailure as e:
+        # one thread, one call, nothing concurrent - and it never returns (e.g. a lock the set-up
+        # phase left held): the smallest possible schedule is already a violation
+        spec = {"table": e.K, "threads": [[e.call]], "policy": {"kind": "explicit", "gran": e.gran},
+                "seed": "alone", "budget": 10 ** 9, "probes": [], "pre": list(e.pre), "theme": "alone", "info": {},
+                "explicit": {"first": 0, "exits": [], "switches": []}}
+        rep = {"violation_class": e.outcome, "violation": {"detail": {"phase": "a single call in a thread of its own, after the set-up phase", "call": list(e.call), "pre": list(e.pre)}},
+               "spec": _jsonable(spec), "threads": spec["threads"], "replayable": True, "original_length": 0, "switches": 0,
+               "seed": base_seed, "run": i, "engine": "schedsim", "property": PROP}
+        procs.request_stop()
+        return {"i": i, "digest": "alone-failure-%d" % i, "steps": 0, "nops": 1, "probes": {}, "oracle_queries": 0,
+                "oracle_hits": 0, "fault_free": False, "nontrivial": False, "violation": rep}
     rec = W.run_spec(spec)
     v = judge(W, spec, rec)
     preempt = sum(1 for s in rec["switches"] if s[3] == "preempt")
@@ -346,6 +378,7 @@ def run_one(base_seed, i, want_sample=False):
         "probes": {"overlap": rec["overlap"], "window_switches": rec["window_switches"],
                    "policy:" + spec["policy"]["kind"] + ":" + spec["policy"]["gran"]: 1,
                    "threads:%d" % len(spec["threads"]): 1, "theme:" + spec["theme"]: 1, "flood_runs": 1 if spec["info"]["flood"] else 0, "deep_nesting_runs": 1 if spec["info"]["deep"] else 0,
+                   "fault_rejected_update_before_threads": len(spec.get("pre", ())),
                    **{"feature:" + f: 1 for f in spec["info"]["features"]},
                    "fault_failing_call_in_a_thread": sum(1 for r in rec["results"] for x in r if x and x[0] == "err"),
                    "double_miss_runs": 1 if rec["double_miss"] else 0,
